@@ -149,10 +149,21 @@ def check(cx):
         r5.instance('%s: pong_notifier = Some(..)' % short_fn(fn))
         guarded = entails(e.pc, Not(is_some(slot)))[0]
         w = cx.walk(fn, key='census')
-        taken = any(is_call(x, 'take') and x.data['args'][0] == slot and x.seq < e.seq and entails(e.pc, x.pc)[0] for x in w.events)
-        if not (guarded or taken or closed_counts):
+        if not (guarded or closed_counts):
             r5.violation('%s|overwrites-pending-notifier' % short_fn(fn), 'the pong notifier slot is overwritten while a deadline may be pending: '
                          'the dropped sender makes the old deadline task finish as if PONG had arrived, so with pong_timeout >= ping_timeout a '
                          'silent client is never disconnected', loc=cx.loc(e.node))
     if not writes:
         r5.violation('nobody|arms-notifier', 'no pong notifier is ever stored', loc=fr)
+    # the slot is emptied only by PONG (which fires the notifier): taking it anywhere else drops the sender, and a dropped sender ends
+    # the deadline task as if PONG had arrived
+    for fn, e in census:
+        b = short_fn(fn.replace('::{closure#0}', ''))
+        emptied = (is_call(e, 'take') and e.data.get('args') and path_of(e.data['args'][0])[-1:] == ['pong_notifier']) or \
+                  (e.kind == 'assign' and not e.data.get('init') and path_of(e.data['lhs'])[-1:] == ['pong_notifier'] and e.data['rhs'][0] != 'some')
+        if emptied:
+            r5.instance('%s empties the notifier slot' % b)
+            if b != 'process_pong' and not closed_counts:
+                r5.violation('%s|drops-pending-notifier' % b, '%s takes the pending pong notifier out of its slot without firing it on behalf of '
+                             'a PONG: the deadline of the unanswered PING is cancelled and a silent client is never disconnected' % b,
+                             loc=cx.loc(e.node))
